@@ -24,7 +24,9 @@ let run () =
            let obs = List.filter (fun t -> t <> "" && not (String.length t > 5 && String.sub t 0 5 = "used=")) (String.split_on_char ' ' rhs) in
            let p = if period = N0 then n_of_int 1 else period in
            let bound = N.add k p in
-           let st = ref (Some ((n_of_string initial, n_of_string c0), ds)) in
+           let pre = if String.length ops > 0 && (ops.[0] = 'S' || ops.[0] = 'P') then 1 else 0 in
+           let st = ref (Some ((N.add (n_of_string initial) (n_of_int pre), n_of_string c0), ds)) in
+           let prev = ref (N.add (n_of_string initial) (n_of_int pre)) in
            let ok = ref true and any_fired = ref false in
            let started_within = N.leb (n_of_string initial) k in
            List.iter (fun tok ->
@@ -45,6 +47,11 @@ let run () =
                        if string_of_n count' <> cnt then ok := false;
                        if started_within && N.ltb bound (n_of_string cnt) then begin
                          incr bound_viol; Printf.printf "BOUND %s\n" line end;
+                       (* cadence: with period <= 1 EVERY write runs maintenance first, so a directory
+                          that was over capacity holds at most k (+ the insertion) afterwards *)
+                       if N.leb period (n_of_int 1) && N.ltb k !prev && N.ltb (N.add k (n_of_int 1)) (n_of_string cnt) then begin
+                         incr bound_viol; Printf.printf "WINDOW %s\n" line end;
+                       prev := n_of_string cnt;
                        st := Some ((count', c'), ds')))
                | _ -> ok := false) obs;
            if !any_fired then incr fired;
